@@ -256,14 +256,30 @@ class Evo:
         self.touched.add(nm)
         self.log.append("E3 %s extends %s mixins %s" % (nm, base, [m["name"] for m in st.get("mixins", [])]))
 
-    def E4(self):
+    def E4(self, hostile=False):
+        if hostile:
+            # a string enumeration whose values are legal but unusual text, and a structure using it
+            nm = self.name(True)
+            self.n += 1
+            vals = [{"name": "Snake", "value": "verif\U0001F40D%d" % self.n}, {"name": "Gothic", "value": "\U00010330\U00010331%d" % self.n}, {"name": "Accent", "value": "caf\u00e9/%d" % self.n}, {"name": "Spaced", "value": "two words%d" % self.n}, {"name": "Plain", "value": "plain%d" % self.n}]
+            self.d["enumerations"].append({"name": nm, "type": B("string"), "values": vals})
+            self.new_enums.append(nm)
+            user = self.name(True)
+            self.d["structures"].append({"name": user, "properties": [{"name": "unusualKind", "type": R(nm)}, {"name": "unusualKinds", "type": {"kind": "array", "element": R(nm)}, "optional": True}]})
+            self.new_structs.append(user)
+            self.touched.add(user)
+            self.log.append("E4 new %s with unusual string values, used by %s" % (nm, user))
+            return
         if self.r.random() < 0.5:
             nm = self.name(True)
             base = self.r.choice(["string", "integer", "uinteger"])
             vals = []
-            for i in range(self.r.choice([1, 2, 4])):
+            for i in range(self.r.choice([2, 2, 4])):
                 vn = self.name(kw=0.3)
-                vals.append({"name": vn + str(i) if vn not in KW else vn, "value": (vn + str(i)) if base == "string" else i + 1})
+                sv = vn + str(i)
+                if base == "string" and i == 1:
+                    sv = self.r.choice(["verif\U0001F40D" + str(self.n), "\U00010330\U00010331" + str(self.n), "caf\u00e9/" + str(self.n), "two words" + str(self.n)])
+                vals.append({"name": vn + str(i) if vn not in KW else vn, "value": sv if base == "string" else i + 1})
             names = set()
             vals = [v for v in vals if not (v["name"] in names or names.add(v["name"]))]
             e = {"name": nm, "type": B(base), "values": vals}
@@ -280,12 +296,14 @@ class Evo:
             e["values"].append(v)
             self.log.append("E4 value %s.%s" % (e["name"], vn))
 
-    def E5(self, with_typename=None, kind=None, dollar=None, params_last_new=False, enum_result=False):
+    def E5(self, with_typename=None, kind=None, dollar=None, params_last_new=False, enum_result=False, unicode_method=None):
         r = self.r
         prefix = "$/verif" if (dollar if dollar is not None else r.random() < 0.2) else "verif/"
         m = prefix + camel([r.choice(WORDS), r.choice(WORDS)]) + str(self.n)
         if prefix == "$/verif":
             m = "$/verif" + m[len("$/verif"):][:1].upper() + m[len("$/verif") + 1:]
+        if unicode_method if unicode_method is not None else r.random() < 0.1:
+            m = m + r.choice(["Übersicht", "Наблюдение", "検索"])  # legal method strings need not be ASCII
         self.n += 1
         par = R(self.new_structs[-1]) if (params_last_new and self.new_structs) else R(r.choice(self.new_structs or self.structs()))
         stem = m.split("/")[1]
@@ -359,6 +377,8 @@ class Evo:
             nm = self.name(True)
             q = {"name": p["name"], "type": copy.deepcopy(p["type"])}
             mode = mode or self.r.choice(["optionality", "literal" if p["type"]["name"] == "string" else "optionality", "nullable"])
+            if mode == "optionality" and p["type"]["name"] == "integer" and self.r.random() < 0.7:
+                q["type"] = B("uinteger")  # narrower base type (other validator)
             if mode == "optionality":
                 if not p.get("optional"):
                     q["optional"] = True
@@ -370,6 +390,12 @@ class Evo:
             self.new_structs.append(nm)
             self.touched.add(nm)
             self.log.append("E8 %s extends %s redeclares %s (%s)" % (nm, base, p["name"], mode))
+            # ... and a third level that inherits the re-declaration without declaring it itself
+            leaf = self.name(True)
+            self.d["structures"].append({"name": leaf, "properties": [{"name": "leafOnly" + str(self.n), "type": B("boolean"), "optional": True}], "extends": [R(nm)]})
+            self.new_structs.append(leaf)
+            self.touched.add(leaf)
+            self.log.append("E8 %s extends %s (inherits the re-declared %s)" % (leaf, nm, p["name"]))
             return
 
     def E9(self):
@@ -436,12 +462,12 @@ class Evo:
         self.touched.add(nm)
         self.log.append("E11 %s anonymous literals with special properties" % nm)
 
-    def E12(self):
+    def E12(self, static=True):
         """properties that reference OPEN enumerations (incl. the integer-based ones no property uses
         today) directly and as array elements.  Parsing such positions needs hand-written hooks, so
         the evolved package is judged on its static image only (C04/C09, Rust, .NET)."""
         nm = self.name(True)
-        opens = [e for e in self.d["enumerations"] if e.get("supportsCustomValues")]
+        opens = [e for e in self.d["enumerations"] if e.get("supportsCustomValues") and ((e["name"] in ("ErrorCodes", "LSPErrorCodes")) == static)]
         props = []
         for e in opens:
             import re as _re
@@ -453,8 +479,11 @@ class Evo:
             props.append({"name": base + "List", "type": {"kind": "array", "element": R(e["name"])}, "optional": True})
         self.d["structures"].append({"name": nm, "properties": props})
         self.new_structs.append(nm)
-        self.log.append("E12 %s references %d open enumerations" % (nm, len(opens)))
-        self.static_only = True
+        self.log.append("E12 %s references %d open enumerations (%s)" % (nm, len(opens), "static image only" if static else "parsed too"))
+        if static:
+            self.static_only = True
+        else:
+            self.touched.add(nm)
 
     def E13(self):
         """one new property of every listed type kind, in an optional and a required flavour."""
